@@ -16,9 +16,11 @@
     derive/src/parse_enum.rs       parse_enum     -> `parseVariants` / `parseEnum`
     derive/src/generate_enum.rs    generate_enum_write -> `enumWrite`, generate_enum_read -> `enumRead`
 
-  The model is the code that exists: in particular `parseVariants` numbers implicit discriminants the way
-  parse_enum.rs does (accumulator starts at 0, `accum + 1`, alternatives advance it) while the write side of an enum
-  without catch-all is `*self as repr`, i.e. rustc's numbering (`rustDiscs`). They disagree; see Props/C19.lean.
+  The model is the code that exists: `parseVariants` numbers implicit discriminants the way parse_enum.rs does (accumulator
+  initial value, step and whether alternatives advance it are re-read from parse_enum.rs on every run: Generated/WireMacro),
+  while the write side of an enum without catch-all is `*self as repr`, i.e. rustc's numbering (`rustDiscs`). Before the fix
+  of parse_enum.rs (accumulator started at 0, alternatives advanced it) the two disagreed; now they agree
+  (Lemmas/WireEnum `macro_numbering_is_rustc`).
 
   Imports only Basic and Generated/WireMacro (the macro's tables, regenerated from its source on every run); the driver
   `drv_c19` links against this file.
